@@ -30,6 +30,11 @@ class Rejected(Exception):
     """Pony legitimately refused a step of the in-session script (not a verdict about the property)"""
 
 
+class InSessionError(Exception):
+    """the in-session script itself failed inside Pony with an unexpected exception: the case says nothing about
+    leftover objects (counted as inconclusive, with a sample)"""
+
+
 def norm_diagram(d):
     out = dict(DEFAULT_DIAGRAM)
     out.update(d or {})
@@ -423,6 +428,7 @@ class Model(object):
         self.any_write = False
         self.phase2 = False
         self.only_creates = True   # the session never needed the database (no connection was opened)
+        self.unsaved = set()       # objects with something to save at the next flush
         self.ncreated = 0
 
     # -- helpers
@@ -538,7 +544,10 @@ class Model(object):
         """the action certainly does not touch the database (so it does not save pending objects either)"""
         k = act[0]
         if k == 'get':
-            return hk([act[1], act[2]]) in self.mem
+            h = hk([act[1], act[2]])
+            if h[0] == 'C' and self.diagram['inherit'] and h in self.mem and not self.mem[h]['created']:
+                return False
+            return h in self.mem
         if k == 'read':
             o = self.mem.get(hk(act[1]))
             if o is None:
@@ -547,8 +556,9 @@ class Model(object):
         return False
 
     def alive(self, h):
+        """usable by further in-session actions (objects that a cascade may have deleted are left alone)"""
         o = self.mem.get(h)
-        return o is not None and not o['deleted']
+        return o is not None and not o['deleted'] and not o['deleted_ok']
 
     # -- validity + effect of one in-session action; returns False when the action makes no sense here
     def apply(self, act):
@@ -656,6 +666,11 @@ class Model(object):
             if a['kind'] == 'coll' or (a['sub'] and not self.sub_ok(h)):
                 return False
             st = o['state'][a['name']]
+            if a['kind'] in ('ref', 'o2orev') and self.diagram['inherit'] and a['type'] == 'C' \
+                    and not (o['created'] and o.get('unsaved_sure')):
+                # reading a reference to an entity with subclasses loads the referred stub (and its fellow stubs)
+                self.only_creates = False
+                self.blur_seeds('C')
             if st == L:
                 return True
             if o['created'] and o.get('unsaved_sure'):
@@ -741,6 +756,7 @@ class Model(object):
             self.enter_phase2()
             o = self.new_obj(h, False, cls)
             o['created'] = o['captured'] = o['unsaved_sure'] = True
+            self.unsaved.add(h)
             o['dirty'] = o['dirty_sure'] = True
             row = {}
             for a in meta[e]:
@@ -814,6 +830,7 @@ class Model(object):
             if row is not None:
                 row[a['name']] = v
             o['dirty'] = o['dirty_sure'] = True
+            self.unsaved.add(h)
             self.modified = self.any_write = True
             return True
         if k in ('add', 'remove'):
@@ -831,6 +848,8 @@ class Model(object):
                 self.only_creates = False
             self.touched.add(h)
             self.touched.add(t)
+            self.unsaved.add(h)
+            self.unsaved.add(t)
             if not a['m2m']:
                 prow = self.row(t)
                 ra = get_attr(meta, 'C', 'parent')
@@ -865,12 +884,21 @@ class Model(object):
             h = hk(act[1])
             if not self.alive(h):
                 return False
+            badge_owners = set(r.get('owner') for r in self.pending.get('O', {}).values())
+            if h[0] == 'C' and h[1] in badge_owners:
+                return False        # refused by Pony: C.badge has no cascade_delete
+            if h[0] == 'P' and any(c in badge_owners for c in self.members_now(h, 'kids')):
+                return False
             self.enter_phase2()
             o = self.mem[h]
             if not o['created']:
                 self.only_creates = False
             o['deleted'] = True
             o['dirty'] = o['dirty_sure'] = True
+            if o['created'] and o.get('unsaved_sure'):
+                self.unsaved.discard(h)     # a new object deleted before it was saved is cancelled: nothing to save
+            else:
+                self.unsaved.add(h)
             self.cascade_from(h)
             for h2 in list(self.mem):
                 self.touched.add(h2)
@@ -881,10 +909,11 @@ class Model(object):
             self.enter_phase2()
             if self.modified or k == 'commit':
                 pass
-            if self.modified:
+            if self.unsaved:
                 self.only_creates = False
                 for o in self.mem.values():
                     o['unsaved_sure'] = False
+            self.unsaved = set()
             for o in self.mem.values():
                 o['dirty'] = o['dirty_sure'] = False
             if k == 'commit':
@@ -1054,6 +1083,10 @@ def run_session(env, case, objs):
             raise HarnessError('Boom out of a session that should not raise')
     except rej as e:
         raise Rejected('%s: %s' % (type(e).__name__, e))
+    except HarnessError:
+        raise
+    except Exception as e:
+        raise InSessionError('%s: %s' % (type(e).__name__, e))
     else:
         if end in ('exception', 'commit_exception'):
             raise HarnessError('the exception did not come out of the db_session')
@@ -1711,7 +1744,7 @@ class Oracle(object):
             return self._fmt(op, out, 'the correct rows or a TransactionError')
         if pk is Ellipsis:
             return None
-        if is_symbolic(h[1]) and pk is None:
+        if is_symbolic(h[1]) and pk is None and how != 'attr':
             want = [[]]
         elif how == 'obj_eq':
             want = [self._expected_rows(h[0], lambda p, r: p == pk)]
